@@ -1,6 +1,7 @@
 //! rpgp-verif: property-based testing / fuzzing machinery for the 19 rPGP properties.
 #![allow(clippy::all)]
 pub mod engine;
+pub mod fuzz;
 pub mod io;
 pub mod msg;
 pub mod pk;
